@@ -13,7 +13,8 @@ Theorem C08_current_guards_ok : guards_ok current_facts = true.
 Proof. vm_compute. reflexivity. Qed.
 
 (** requiredGas has its length guard, bankMsgSend validates denom and amount before sdk.NewCoin,
-    sendToEvm / getErc20Address keep NUL characters away from the collections index, OnRunStart
+    sendToEvm / getErc20Address keep NUL characters away from the collections index, sendToBank checks
+    the 256-bit bound of the bank supply before MintCoins, OnRunStart
     installs the limited local gas meter, all three Run methods defer HandleOutOfGasPanic *)
 Theorem C08_current_panic_guards_ok : panic_ok current_facts = true.
 Proof. vm_compute. reflexivity. Qed.
@@ -35,14 +36,14 @@ Proof. vm_compute. repeat split; reflexivity. Qed.
 
 (** the property for the tree as it is now: every body, every input *)
 Theorem C08_holds_for_current_tree :
-  forall (St : Type) (body : mid -> list arg -> St -> Z -> bres St) (transfer : St -> Z -> St) p k value gas inp st,
-    Proofs.query_bodies_readonly St body -> input_wf inp = true -> 0 <= gas ->
-    let r := evm_call St body transfer current_facts p k value gas inp st in
+  forall (St : Type) (body after_mint : mid -> list arg -> St -> Z -> bres St) (transfer : St -> Z -> St) p k value gas inp st,
+    Proofs.query_bodies_readonly St body after_mint -> input_wf inp = true -> 0 <= gas ->
+    let r := evm_call St body after_mint transfer current_facts p k value gas inp st in
     P k value gas (selected (pc_of current_facts p) inp) (r_out r) (r_left r)
       (r_st r = st) (r_st r = st \/ r_st r = transfer st value).
 Proof.
-  intros St body transfer p k value gas inp st QB W G.
-  exact (C08_model_satisfies_property St body transfer current_facts p k value gas inp st
+  intros St body after_mint transfer p k value gas inp st QB W G.
+  exact (C08_model_satisfies_property St body after_mint transfer current_facts p k value gas inp st
            C08_current_guards_ok C08_current_panic_guards_ok
            (proj1 (proj2 (proj2 C08_current_wrapper_facts_ok))) QB W G).
 Qed.
@@ -55,13 +56,13 @@ Print Assumptions C08_holds_for_current_tree.
 Theorem C08_nested_static_status_on_current_tree :
   (f_call_inherits_static current_facts = false /\
    exists p gas inp,
-     let r := evm_call Z Ref.sample_body Ref.sample_transfer current_facts p (KCall true) 0 gas inp 0 in
+     let r := evm_call Z Ref.sample_body Ref.sample_after_mint Ref.sample_transfer current_facts p (KCall true) 0 gas inp 0 in
      ~ P_nested (KCall true) (selected (pc_of current_facts p) inp) (r_out r) (r_st r = 0))
   \/
   (f_call_inherits_static current_facts = true /\
-   forall (St : Type) (body : mid -> list arg -> St -> Z -> bres St) (transfer : St -> Z -> St) p k gas inp st,
-     Proofs.query_bodies_readonly St body -> input_wf inp = true ->
-     let r := evm_call St body transfer current_facts p k 0 gas inp st in
+   forall (St : Type) (body after_mint : mid -> list arg -> St -> Z -> bres St) (transfer : St -> Z -> St) p k gas inp st,
+     Proofs.query_bodies_readonly St body after_mint -> input_wf inp = true ->
+     let r := evm_call St body after_mint transfer current_facts p k 0 gas inp st in
      P_nested k (selected (pc_of current_facts p) inp) (r_out r) (r_st r = st)).
 Proof.
   first
@@ -69,8 +70,8 @@ Proof.
       exists PFunToken, 1000000, (Ref.bankMsgSend_call Ref.unibi 5);
       intros r H; specialize (H eq_refl); destruct H as [H _]; subst r; vm_compute in H; discriminate
     | right; split; [reflexivity|];
-      intros St body transfer p k gas inp st QB W;
-      exact (C08_nested_static_if_inherited St body transfer current_facts p k gas inp st
+      intros St body after_mint transfer p k gas inp st QB W;
+      exact (C08_nested_static_if_inherited St body after_mint transfer current_facts p k gas inp st
                C08_current_guards_ok C08_current_panic_guards_ok eq_refl QB W) ].
 Qed.
 Print Assumptions C08_nested_static_status_on_current_tree.
